@@ -145,7 +145,7 @@ def fmt(t, depth=0):
         return 'cast(%s)' % fmt(t[1], d)
     if k == 'elem':
         return 'elem(%s)' % fmt(t[1], d)
-    if k in ('env', 'next', 'len', 'repeat'):
+    if k in ('env', 'next', 'len', 'repeat', 'try'):
         return '%s(%s)' % (k, fmt(t[1], d))
     if k == 'callv':
         return 'callv(%s; %s)' % (fmt(t[1], d), ', '.join(fmt(a, d) for a in t[2]))
